@@ -550,7 +550,7 @@ def run(ck):
                     acc.count('corpus:' + fn[:-5])
                     idx += 1
         n_scn = 6 if quick else 24
-        n_sel = 10 if quick else 25
+        n_sel = 9 if quick else 25
         for i in range(n_scn):
             params = gen_params(ck.rng, i, ck.tier)
             world = World(os.path.join(ck.scratch, 'w%d' % i), params)
@@ -562,7 +562,9 @@ def run(ck):
             sels = gen_selections(ck.rng, params, n_sel)
             for j, (exp, filters) in enumerate(sels):
                 for placement, tmpdir in (('same_fs', tmp_same), ('other_fs', tmp_shm)):
-                    do_crash = (j in (1, 2)) if quick else (j < 6)
+                    # quick: one selection killed with the temp dir on the same, one on the other file system
+                    do_crash = ((j == 1 and placement == 'same_fs') or (j == 2 and placement == 'other_fs')) \
+                        if quick else (j < 6)
                     cp = crash_selector(ck.tier, ck.rng, exhaustive=not quick) if do_crash else None
                     check_selection(acc, world, exp, filters, tmpdir, placement, ck.model, cp)
             for exp in ([None, 'all'] + (['U'] if params['u'] else [])):
